@@ -1,8 +1,75 @@
-(* Property C17 — whole-table transformations preserve the content they are not meant to remove. (first stage) *)
+(* Property C17 — whole-table transformations preserve the content they are not meant to remove.
+   Statements only; each is closed by [exact] of a lemma proved in Transformproof*.v.
+   Model: Transform.v (on the run-length state of Table.v; the REPAIRED code: fixes F21, F22, F121, F122);
+   specification: Transformspec.v on the list-of-lists grid of Grid.v; abstraction abs_t: Tableabs.v.
+   [a : calg] is the cell algebra (lxml's tag / span-attribute edits on one cell, see Transform.v). *)
 From Coq Require Import List ZArith Lia Bool Arith.
 Import ListNotations.
-Require Import Vault Row Table Grid Tableabs Transform Transformspec Transformproof.
+Require Import Vault Row Table Grid Tableabs Transform Transformspec Transformproof Transformproof2 Transformproof3
+               Transformproof4 Transformproof5.
+Open Scope Z_scope.
 
-Theorem strip_is_idempotent : forall (A : Type) (p : A -> bool) (l : list A), strip_end p (strip_end p l) = strip_end p l.
-Proof. exact (@strip_end_idem). Qed.
-Print Assumptions strip_is_idempotent.
+(* ================= rstrip ================= *)
+(* the run-length model of Table.rstrip(aggressive) is the plain list operation: drop the empty rows at the end, drop
+   the empty cells at the end of every remaining row, cut the declared columns down to the longest row *)
+Theorem C17_rstrip_refines : forall (a : calg) (aggr : bool) (t : tstate), WF t ->
+  abs_t (t_rstrip a aggr t) = g_rstrip a aggr (abs_t t) /\ WF (t_rstrip a aggr t).
+Proof. exact rstrip_refines. Qed.
+Print Assumptions C17_rstrip_refines.
+
+Theorem C17_rstrip_idempotent : forall (a : calg) (aggr : bool) (t : tstate), WF t ->
+  abs_t (t_rstrip a aggr (t_rstrip a aggr t)) = abs_t (t_rstrip a aggr t).
+Proof. exact rstrip_idem_model. Qed.
+Print Assumptions C17_rstrip_idempotent.
+
+(* only rows at the end are removed and each is empty; every kept row is a prefix of the old one and each removed cell
+   is empty ("empty" per Cell.is_empty(aggressive)); no column is added — and nothing more could be removed *)
+Theorem C17_rstrip_removes_only_trailing_empties : forall (a : calg) (aggr : bool) (t : tstate), WF t ->
+  strip_rows_law a aggr aggr (abs_t t) (abs_t (t_rstrip a aggr t)) = true /\
+  rstrip_maximal a aggr (abs_t (t_rstrip a aggr t)) = true.
+Proof. exact rstrip_law_model. Qed.
+Print Assumptions C17_rstrip_removes_only_trailing_empties.
+
+Theorem C17_rstrip_keeps_nonempty_values : forall (a : calg) (aggr : bool) (t : tstate) (x y : Z),
+  WF t -> cell_empty a aggr empty_cell = true -> 0 <= x -> 0 <= y ->
+  cell_empty a aggr (gcell x y (abs_t t)) = false ->
+  gcell x y (abs_t (t_rstrip a aggr t)) = gcell x y (abs_t t).
+Proof. exact rstrip_keeps_model. Qed.
+Print Assumptions C17_rstrip_keeps_nonempty_values.
+
+(* ================= transpose ================= *)
+Theorem C17_transpose_refines : forall (t : tstate), WF t ->
+  abs_t (t_transpose t) = g_transpose (abs_t t) /\ WF (t_transpose t).
+Proof. exact transpose_refines. Qed.
+Print Assumptions C17_transpose_refines.
+
+(* "the original matrix": for ragged rows, the rectangular closure — every row completed with empty cells to the
+   longest STORED row (not to the declared width); a table whose rows hold no cell comes back empty *)
+Theorem C17_transpose_twice : forall (t : tstate), WF t ->
+  abs_t (t_transpose (t_transpose t)) = rect_closure (abs_t t).
+Proof. exact transpose_twice_model. Qed.
+Print Assumptions C17_transpose_twice.
+
+Theorem C17_transpose_swaps_coordinates : forall (t : tstate) (x y : Z), WF t ->
+  0 <= x < Z.of_nat (max_length (grows (abs_t t))) -> 0 <= y ->
+  gcell y x (abs_t (t_transpose t)) = gcell x y (abs_t t).
+Proof. exact transpose_swaps_model. Qed.
+Print Assumptions C17_transpose_swaps_coordinates.
+
+(* ================= refuted on the model of the pinned code ================= *)
+(* F21: the pinned transpose raises on ragged rows (the repaired one gives the transposed closure) *)
+Theorem C17_transpose_pinned_refuted : exists t : tstate, WF t /\ t_transpose_pinned t = None.
+Proof. exists f21_table. split; apply f21_witness. Qed.
+Print Assumptions C17_transpose_pinned_refuted.
+
+(* F22: the pinned optimize_width drops the repeat of a non-empty last row: a 2-times repeated row holding "a" loses
+   row 1 (the strip law is false); the repaired one leaves that table alone *)
+Theorem C17_optimize_width_pinned_refuted : exists (t t' : tstate), WF t /\
+  t_optimize_width plain_alg false t = Some t' /\ strip_rows_law plain_alg false true (abs_t t) (abs_t t') = false.
+Proof. destruct f22_witness as (Hw & (t' & H1 & _ & H3) & _). exists f22_table, t'. split; [exact Hw|]. split; [exact H1|exact H3]. Qed.
+Print Assumptions C17_optimize_width_pinned_refuted.
+
+(* F122: the pinned optimize_width raises on a table without rows *)
+Theorem C17_optimize_width_no_rows_pinned_refuted : exists t : tstate, WF t /\ t_optimize_width plain_alg false t = None.
+Proof. exists {| cols := [(2%nat, 0)]; rows := [] |}. split; [repeat split; repeat constructor; cbn; lia|apply f122_witness]. Qed.
+Print Assumptions C17_optimize_width_no_rows_pinned_refuted.
